@@ -175,7 +175,9 @@ def parseE2E (rest : List String) : Option E2E := do
   let group ← (kv? "group" rest).map ver
   some ⟨rules, links, desired, objs, group, outs⟩
 
-/-- the property of the application phase, on an observed run: see `Props/C15.ApplyOk` -/
+/-- the property of the application phase, on an observed run: `applyCheck` (order, piping, Success
+only if …, own message; `Props/C15.apply_chain`) and `servedCheck` (served whenever a chain exists:
+a `Failed` needs a reason; `Props/C15.apply_served`) -/
 
 def e2eStep (rest : List String) : String :=
   match parseE2E rest with
@@ -195,8 +197,12 @@ def oracleE2E (rest : List String) : String :=
   match parseE2E rest, (kv? "inv" rest).bind parseInv, parseReply rest with
   | some e, some inv, some reply =>
     match applyCheck e.rules e.desired e.objs (scriptOf e.group e.desired e.outs) inv reply with
-    | none => "true"
     | some why => "false " ++ why
+    | none =>
+      match servedCheck e.rules (fun r => e.links.contains r) e.desired e.objs
+          (scriptOf e.group e.desired e.outs) inv reply with
+      | none => "true"
+      | some why => "false " ++ why
   | _, _, _ => "bad-op"
 
 def step (st : St) (toks : List String) : St × String :=
